@@ -198,6 +198,8 @@ class NFDomain(Domain):
             return n(args[0]) * n(args[1])
         if fname == "np.where" and len(args) == 3:
             c = args[0]
+            if isinstance(c, bool):
+                return args[1] if c else args[2]
             ctext = c.canon() if isinstance(c, NF) else (c.path if isinstance(c, Ref) else str(c))
             return interp._join("where:" + ctext, args[1] if not isinstance(args[1], Ref) else n(args[1]), args[2] if not isinstance(args[2], Ref) else n(args[2]))
         if fname in ("np.timedelta64", "np.datetime64") and args:
